@@ -116,9 +116,11 @@ fn handle_gen(req: &Value) -> Value {
             wants(req, "events")
                 || match e {
                     LexStep { .. } => wants(req, "lexev"),
-                    FirstSets(_) | BuilderPop(_) | BuilderTarget { .. } => wants(req, "buildev"),
+                    FirstPass { .. } | FirstSets(_) | BuilderPop(_) | BuilderTarget { .. } => wants(req, "buildev"),
                     ScanItem { .. } | SetAction { .. } | FillOrder(_) | GotoFillOrder(_) => wants(req, "fillev"),
                     FreshNames(_) => wants(req, "names"),
+                    #[allow(unreachable_patterns)]
+                    _ => wants(req, "buildev"),
                 }
         };
         out["events"] = Value::Array(
@@ -313,6 +315,7 @@ fn serve(cmd: &'static str, timeout: Duration) {
     let stdout = std::io::stdout();
     let mut w = std::io::BufWriter::new(stdout.lock());
     let (mut tx, mut rx) = spawn_worker(cmd);
+    let mut hangs = 0u32;
     for line in stdin.lock().lines() {
         let line = line.expect("stdin");
         if line.trim().is_empty() {
@@ -326,6 +329,12 @@ fn serve(cmd: &'static str, timeout: Duration) {
             }
         };
         let id = req["id"].clone();
+        if hangs >= 5 {
+            // every abandoned worker keeps spinning; after five hangs the remaining requests are not attempted
+            writeln!(w, "{}", json!({"id": id, "res": {"t": "hang", "not_attempted": true}})).unwrap();
+            w.flush().unwrap();
+            continue;
+        }
         tx.send(req).unwrap();
         let res = match rx.recv_timeout(timeout) {
             Ok(v) => v,
@@ -333,6 +342,7 @@ fn serve(cmd: &'static str, timeout: Duration) {
                 let fresh = spawn_worker(cmd);
                 tx = fresh.0;
                 rx = fresh.1;
+                hangs += 1;
                 json!({"id": id, "res": {"t": "hang", "after_s": timeout.as_secs()}})
             }
             Err(mpsc::RecvTimeoutError::Disconnected) => {
